@@ -65,7 +65,12 @@ def is_url(
         return False
 
     if tld_aware:
-        parsed = safe_urlsplit(string)
+        # NOTE: the pattern accepts some strings the parser rejects
+        try:
+            parsed = safe_urlsplit(string)
+        except ValueError:
+            return False
+
         if not has_valid_tld(parsed):
             # NOTE: the pattern may see a host where the parser sees none
             if not parsed.hostname:
